@@ -241,6 +241,10 @@ def check_list_and_combination(ctx, Z, N, rng):
         idx = sorted(set(int(v) for v in rng.integers(1, J + 1, int(rng.integers(1, 8)))))
         if rng.random() < 0.5:
             idx = idx[::-1]
+        if rng.random() < 0.5:
+            # an index may appear more than once in the list (a mode used twice): every occurrence is that slice
+            idx = idx + [idx[int(rng.integers(0, len(idx)))] for _ in range(int(rng.integers(1, 4)))]
+            idx = [idx[i] for i in rng.permutation(len(idx))]
         wit = {"N": N, "J": J, "list": idx, "norm": norm, "rot": rot}
         full = Z.zernikeArray(J, N, norm=norm, rot=rot)
         ctx.case("list_vs_count", key=(N, J, tuple(idx), norm, rot), nontrivial=True, sample=wit)
